@@ -983,6 +983,11 @@ def coq_term(case, obs):
                 return "false"
             cells = column_cells(tfj, loc, st, case["n"])
         obs_cells = M.plist(cells, lambda c: M.pecell(c, is_int))
+        if st == "multicategorical" and col["sep"]:
+            # Python's own split / strip against the model's primitives (Props/C01.v split_loses_nothing, strip_...)
+            for c in {c for c in col["cells"] if isinstance(c, str)}:
+                pieces = [t.strip() for t in c.split(col["sep"])]
+                parts.append(f"check_split {M.pstr(c)} {M.pstr(col['sep'])} {M.plist(pieces, M.pstr)}")
         if minus_one_situation(col):
             # known finding (integer token -1 aliases the missing marker): nothing is demanded of the
             # implementation on such a column -- a harmless rewrite may alias differently, or not at all --
